@@ -695,8 +695,10 @@ def gen_history(rng, U, names):
 
 
 def run_history(code, rs, events, cap=4000):
-    return [common.run_main_driver(code, ["-r", rs["name"], "-s", n] + (["--load"] if load else []), quit_after_guesses=q, cap=cap)
-            for (n, load, q) in events]
+    # every invocation is a new process with its own string-hash salt (PYTHONHASHSEED differs from run to run, deterministically)
+    return [common.run_main_driver(code, ["-r", rs["name"], "-s", n] + (["--load"] if load else []), quit_after_guesses=q, cap=cap,
+                                   hashseed=(0, 101, 20222, 7, 4242)[i % 5])
+            for i, (n, load, q) in enumerate(events)]
 
 
 def judge_history(U, events, results, replay):
